@@ -309,6 +309,8 @@ class NumpyMixin:
         m['sqrt'] = ufunc1(th.num_sqrt, name='sqrt')
         m['fabs'] = ufunc1(th.num_abs, name='fabs')
         m['abs'] = m['fabs']
+        m['nan'] = SV(NUM, th.NaN)
+        m['inf'] = SV(NUM, th.PInf)
         m['hypot'] = ufunc2(th.num_hypot, out='num', name='hypot')
         m['isnan'] = ufunc1(lambda x: th.is_nan(x), 'bool', name='isnan')
         m['less'] = ufunc2(th.num_lt, name='less')
